@@ -230,3 +230,14 @@ impl Stats {
         o
     }
 }
+
+/// the message and location of the last panic (recorded by the hook installed in main)
+pub static LAST_PANIC: std::sync::Mutex<String> = std::sync::Mutex::new(String::new());
+pub fn last_panic() -> String { LAST_PANIC.lock().map(|s| s.clone()).unwrap_or_default() }
+pub fn install_panic_recorder() {
+    std::panic::set_hook(Box::new(|info| {
+        let msg = if let Some(s) = info.payload().downcast_ref::<&str>() { s.to_string() } else if let Some(s) = info.payload().downcast_ref::<String>() { s.clone() } else { "panic".to_string() };
+        let loc = info.location().map(|l| format!("{}:{}", l.file().rsplit("/repo/").next().unwrap_or(l.file()), l.line())).unwrap_or_default();
+        if let Ok(mut g) = LAST_PANIC.lock() { *g = format!("{} @ {}", msg.chars().take(160).collect::<String>(), loc); }
+    }));
+}
